@@ -77,8 +77,38 @@ def part_protocol(ctx):
     protocol.run_jobs(ctx, heavy, "row_shape_lot", ignore=ign, min_chunk=max(6, len(heavy) // 12))
 
 
+def part_refit(ctx):
+    """a fitted vectorizer is also one that was fitted before on something else: the same OBJECT re-fitted on another batch must give,
+    for every later input, the rows / width a fresh estimator fitted on that batch gives (Protocol.tla: memo survives New and re-fits)"""
+    from .. import adapters
+    from .c02 import all_adapters, call
+    new = {"op": "new", "b": [], "knob": 0, "expect_ok": True}
+    rw = [[call("fit", [3, 4]), call("transform", [1, 3, 2]), new,
+           call("fit", [1, 2]), call("transform", [3, 4]), call("fit", [3, 4]), call("transform", [1, 3, 2]), call("transform", [4, 2])],
+          [call("fit_transform", [1, 2]), call("transform", [3, 4]), new,
+           call("fit", [2, 3, 4]), call("transform", [3]), call("fit_transform", [1, 2]), call("transform", [3, 4])]]
+    wh = [[call("fit", [4]), call("transform", [1]), call("transform", [2]), new,
+           call("fit", [3]), call("transform", [3]), call("fit", [4]), call("transform", [1]), call("transform", [2])],
+          [call("fit", [2]), call("transform", [4]), new,
+           call("fit_transform", [1]), call("transform", [3]), call("fit", [2]), call("transform", [4])]]
+    jobs = []
+    for n, cls in sorted(all_adapters().items()):
+        for ci in range(len(cls.configs)):
+            for h in (wh if cls.kind == adapters.WHOLE else rw)[: ctx.pick(1, 2) if cls.heavy else 2]:
+                jobs.append(dict(adapter=n, cfg=ci, seed=ctx.seed, history=h, reuse=True))
+    light = [j for j in jobs if not all_adapters()[j["adapter"]].heavy]
+    heavy = sorted([j for j in jobs if all_adapters()[j["adapter"]].heavy], key=lambda j: (j["adapter"], j["cfg"]))
+    ign = ("arguments_modified", "constructor_parameter_objects_modified", "temporary_files_left_behind", "transform_changed_the_model",
+           "fit_returns_self")
+    # one pool for both kinds (the slow, re-compiling light adapters and the heavy LOT adapters overlap)
+    mixed = []
+    for k in range(max(len(light), len(heavy))):
+        mixed += light[k:k + 1] + heavy[k:k + 1]
+    protocol.run_jobs(ctx, mixed, "refit_same_object", ignore=ign, min_chunk=2)
+
+
 PARTS = [("cooc", part_cooc), ("ngram", c06.part_ngram), ("skipgram", c06.part_skipgram), ("edgelist", c06.part_edgelist),
-         ("lz", c16.body), ("bpe", c09.body), ("hist", c20.part_hist), ("protocol", part_protocol)]
+         ("lz", c16.body), ("bpe", c09.body), ("hist", c20.part_hist), ("protocol", part_protocol), ("refit", part_refit)]
 
 
 def run(ctx):
